@@ -18,6 +18,14 @@ Theorem C08_L1_refines_L0 :
 Proof. intros ops H. exact (run_refines ops init1 init0 sim_init H). Qed.
 Print Assumptions C08_L1_refines_L0.
 
+(* unconditional corollary: sequences that never take a checkpoint *)
+Theorem C08_refines_without_checkpoint :
+  forall ops : list op, forallb not_checkpoint ops = true -> run1 init1 ops = run0 init0 ops.
+Proof.
+  intros ops H. apply C08_L1_refines_L0. apply no_checkpoint_no_hazard; [exact all_nil_init|exact H].
+Qed.
+Print Assumptions C08_refines_without_checkpoint.
+
 (* one step, from any related pair of states *)
 Theorem C08_step_commutes :
   forall s1 s0 o, Sim s1 s0 -> hazard1 s1 o = false ->
@@ -85,15 +93,17 @@ Proof.
 Qed.
 Print Assumptions C08_iter_bounds.
 
-Lemma in_bounds_spec lo hi k :
+(* what "inside the bounds" means *)
+Theorem C08_in_bounds_spec : forall lo hi k,
   in_bounds lo hi k = true <-> (lo = [] \/ lex_cmp lo k <> Gt) /\ (hi = [] \/ lex_cmp k hi = Lt).
 Proof.
-  unfold in_bounds, lex_leb, lex_ltb. rewrite andb_true_iff. split; intros [A B]; split.
+  intros lo hi k. unfold in_bounds, lex_leb, lex_ltb. rewrite andb_true_iff. split; intros [A B]; split.
   - destruct lo; [left; reflexivity|right]. destruct (lex_cmp (n :: lo) k); congruence.
   - destruct hi; [left; reflexivity|right]. destruct (lex_cmp k (n :: hi)); congruence.
   - destruct lo; [reflexivity|]. destruct A as [A|A]; [discriminate|]. destruct (lex_cmp (n :: lo) k); congruence.
   - destruct hi; [reflexivity|]. destruct B as [B|B]; [discriminate|]. rewrite B. reflexivity.
 Qed.
+Print Assumptions C08_in_bounds_spec.
 
 (* 5. Limits: rejected exactly at the limit; a key or an entry that is too large changes nothing (not even
    the write sequence number); a write that makes the buffer too large IS applied and answered with
